@@ -715,6 +715,8 @@ func (s *S) exec(op Op) {
 	case "drop":
 		s.awaitVisible()
 		s.drop(op.Drop)
+	case "wait":
+		time.Sleep(time.Duration(op.SettleMs) * time.Millisecond)
 	case "recreate":
 		s.recreate(op.Drop)
 	case "check":
@@ -1014,11 +1016,16 @@ func runHistory(t *rapid.T, c *ev.Case) {
 		}
 	}
 	// rewrite: new points for series / measurements that were dropped (they must behave as fresh ones)
+	var freshlyDropped []string // series removed by the latest drop (preferred by the rewrite that follows it)
 	rewrite := func(t *rapid.T) {
 		if len(s.droppedKeys) == 0 {
 			t.Skip("nothing dropped yet")
 		}
-		sk := rapid.SampledFrom(s.droppedKeys).Draw(t, "droppedSeries")
+		pool := s.droppedKeys
+		if len(freshlyDropped) > 0 && rapid.IntRange(0, 2).Draw(t, "fresh") > 0 {
+			pool = freshlyDropped
+		}
+		sk := rapid.SampledFrom(pool).Draw(t, "droppedSeries")
 		i := strings.Index(sk, "|")
 		ns, key := sk[:i], sk[i+1:]
 		parts := strings.Split(key, ",")
@@ -1177,7 +1184,12 @@ func runHistory(t *rapid.T, c *ev.Case) {
 				targeted = append(targeted, batteryFor(n, m, nil)[:6]...)
 			}
 		}
+		nDroppedBefore := len(s.droppedKeys)
 		s.exec(Op{Kind: "drop", Drop: d})
+		freshlyDropped = nil
+		if len(s.droppedKeys) > nDroppedBefore {
+			freshlyDropped = append(freshlyDropped, s.droppedKeys[nDroppedBefore:]...)
+		}
 		if d.Kind == "database" && d.NS == "db0" {
 			// every read needs the database: re-create first
 			s.exec(Op{Kind: "recreate", Drop: d})
@@ -1191,9 +1203,26 @@ func runHistory(t *rapid.T, c *ev.Case) {
 		if d.Kind == "rp" || (d.Kind == "database" && d.NS != "db0") {
 			s.exec(Op{Kind: "recreate", Drop: d})
 		}
-		if rapid.IntRange(0, 1).Draw(t, "rewriteNow") == 0 && len(s.droppedKeys) > 0 {
-			rewrite(t)
-			reads(t, 2)
+		// writes to what was just dropped (a re-created measurement / series must behave as a fresh one); for the two-phase drops
+		// (marked first, purged by a background loop) once more after the purge had time to finish
+		if len(s.droppedKeys) > 0 {
+			switch mode := rapid.SampledFrom([]string{"none", "now", "now", "afterPurge", "afterPurge", "both"}).Draw(t, "rewriteMode"); {
+			case mode == "now" || d.Kind == "series" && mode != "none":
+				rewrite(t)
+				reads(t, 2)
+			case mode == "afterPurge":
+				// nothing touches the dropped name until the background purge is over, then it is written again
+				s.exec(Op{Kind: "wait", SettleMs: 2500})
+				c.Class("write-to-dropped-name-after-the-purge")
+				rewrite(t)
+				reads(t, 3)
+			case mode == "both":
+				rewrite(t)
+				reads(t, 2)
+				s.exec(Op{Kind: "wait", SettleMs: 2500})
+				rewrite(t)
+				reads(t, 2)
+			}
 		}
 	}
 	kill := func(t *rapid.T) {
